@@ -259,6 +259,39 @@ def fam_death(rng, n, tag="death", three=False):
         out.append(s)
     return out
 
+def fam_death_starve(rng, n, tag="dstarve"):
+    """3-4 peers; any one of them (not only the highest handle) dies cleanly - every survivor holds
+    the same input of it - and is dropped by timeout; afterwards one survivor is starved of another
+    survivor's input for longer than the window (but shorter than the timeout), then the link heals.
+    The survivors must keep gating on every still-connected player."""
+    out = []
+    for i in range(n):
+        n_peers = rng.choice([3, 3, 4])
+        w = rng.choice([0, 1, 2, 4, 8])
+        to = rng.choice([1000, 2000])
+        s = Scen("%s_%d" % (tag, i), players=n_peers, window=w, lat=rng.choice([5, 20]), seed=rng.randrange(1 << 30),
+                 sparse=(rng.randrange(2) if w > 0 else 0), pred=rng.choice(["repeat", "default"]), inputrun=rng.choice([1, 3]),
+                 timeout=to, notify=rng.choice([200, 500]))
+        _topology(rng, s, n_peers, n_peers, delays=(0, 0, 1))
+        victim = rng.randrange(1, n_peers + 1)
+        surv = [p for p in range(1, n_peers + 1) if p != victim]
+        t_die = rng.randrange(500, 1500)
+        t_out = t_die + to + rng.choice([400, 700])
+        d_out = rng.choice([(w + 3) * 16, (w + 8) * 16, 600])
+        d_out = min(d_out, to - 300)
+        dst = rng.choice(surv)
+        src = rng.choice([p for p in surv if p != dst])
+        s.link(src, dst, outages=[(t_out, t_out + d_out)])
+        end = t_out + d_out + 2500
+        for p in range(1, n_peers + 1):
+            s.ticks(p, rng.randrange(0, 16), end if p != victim else t_die, 16)
+        s.at(t_die, "kill", victim)
+        for p in surv:
+            s.at(end - 10, "progress", p, 15 if w > 0 else 3)
+        s.at(t_out + d_out + 600, "mark")
+        out.append(s)
+    return out
+
 def fam_delay(rng, n, tag="delay"):
     """C11: set_input_delay at arbitrary moments, values 0..=6, several local players with
     different delays, decrease-then-increase, changes while stalled, spectators attached"""
